@@ -28,9 +28,11 @@ func propC11(c *Ctx) {
 	c.ruleC10CopyReset() // the paste pass re-runs the same context resolution on copies
 	c.ruleOpenForEveryKind("C11-OPEN-FOR-EVERY-KIND")
 	c.rulePlaceWhenComplete("C11-PLACE-WHEN-COMPLETE")
+	c.ruleExplicitFlagWriters("C11-EXPLICIT-FLAG-WRITERS")
 	if m := c.E1Base(); m != nil {
 		c.ruleC11Paren(m)
 		c.ruleOpenTransparent(m, "C11-OPEN-TRANSPARENT")
+		c.ruleEOFAsEOL(m, c.Analysis(stackK, false)) // a context opened at the very end of an included file is closed by the including one
 	}
 }
 
@@ -1068,5 +1070,87 @@ func (c *Ctx) rulePlaceWhenComplete(rule string) {
 		default:
 			r.Ok(rule, key, "does not place the pending directive", c.pos(a.body[0].Pos()))
 		}
+	}
+}
+
+// ---------- who writes the explicit-context flag ----------
+
+// ruleExplicitFlagWriters: HasExplicitContext records a fact about the text: this directive was followed by "(". The
+// scan-time resolution and the expansion pass both read it (")" walks up to it; after the children of such a directive
+// the expansion returns to its parent). It is true exactly for the directives that had a "(": set by the handler of
+// "(", never cleared, never set anywhere else.
+func (c *Ctx) ruleExplicitFlagWriters(rule string) {
+	r := c.R
+	r.Rule(rule, "the field Directive.HasExplicitContext is assigned in one place only - the handler of the opening parenthesis, which sets it to the constant true on the pending directive; no other function of the library stores into it (a flag cleared or set later makes the expansion pass, which reads it again, resolve contexts differently from the scan)", 1)
+	var fld *types.Var
+	if tn := c.P.LookupType("directive", "Directive"); tn != nil {
+		if st, ok := tn.Type().Underlying().(*types.Struct); ok {
+			for i := 0; i < st.NumFields(); i++ {
+				if st.Field(i).Name() == "HasExplicitContext" {
+					fld = st.Field(i)
+				}
+			}
+			if fld == nil {
+				// renamed: the bool field that the handler of "(" sets
+				if h := c.fn("core", "JApiCore.processContextBegin"); h != nil {
+					ast.Inspect(h.Decl.Body, func(n ast.Node) bool {
+						if as, ok := n.(*ast.AssignStmt); ok && len(as.Lhs) == 1 {
+							if fv := fieldSel(h.Pkg, as.Lhs[0]); fv != nil {
+								for i := 0; i < st.NumFields(); i++ {
+									if st.Field(i) == fv {
+										fld = fv
+									}
+								}
+							}
+						}
+						return true
+					})
+				}
+			}
+		}
+	}
+	if fld == nil {
+		r.Undecided(rule, "anchor", "the explicit-context flag of directive.Directive not found", "")
+		return
+	}
+	open := c.fn("core", "JApiCore.processContextBegin")
+	n := 0
+	for _, f := range c.libFns() {
+		ast.Inspect(f.Decl.Body, func(nd ast.Node) bool {
+			var lhs []ast.Expr
+			var rhs []ast.Expr
+			switch x := nd.(type) {
+			case *ast.AssignStmt:
+				lhs, rhs = x.Lhs, x.Rhs
+			case *ast.IncDecStmt:
+				lhs = []ast.Expr{x.X}
+			case *ast.UnaryExpr:
+				if x.Op == token.AND {
+					lhs = []ast.Expr{x.X} // its address taken: anyone can write it
+				}
+			}
+			for i, l := range lhs {
+				if fieldSel(f.Pkg, l) != fld {
+					continue
+				}
+				n++
+				key := fmt.Sprintf("%s | %s", f.Name(), exprString(l))
+				isTrue := false
+				if i < len(rhs) {
+					if tv, ok := f.Pkg.TypesInfo.Types[rhs[i]]; ok && tv.Value != nil && tv.Value.Kind() == constant.Bool && constant.BoolVal(tv.Value) {
+						isTrue = true
+					}
+				}
+				if open != nil && f.Obj == open.Obj && isTrue {
+					r.Ok(rule, key, "set to true by the handler of the opening parenthesis", c.pos(l.Pos()))
+				} else {
+					r.Bad(rule, key, "the explicit-context flag is written outside the handler of the opening parenthesis (or with something else than true): what the expansion pass reads is then no longer 'this directive was followed by \"(\"'", c.pos(l.Pos()))
+				}
+			}
+			return true
+		})
+	}
+	if n == 0 {
+		r.Undecided(rule, "sites", "no assignment of the flag found, not even the one of the handler of '('", "")
 	}
 }
